@@ -239,10 +239,20 @@ impl MemReader {
 
         // I don't think there would ever be a case where we would not read on word boundaries, but just in case...
         let last = chunks.into_remainder();
-        if !last.is_empty() {
-            let word = nix::sys::ptrace::read(pid, (src + offset) as *mut std::ffi::c_void)
-                .map_err(|err| (err, offset))?;
-            last.copy_from_slice(&word.to_ne_bytes()[..last.len()]);
+        // Read the remaining bytes through the aligned word(s) that contain them: an unaligned
+        // word starting at `src + offset` would extend past the end of the requested range and
+        // the read would fail if the range ends at the end of a mapping.
+        const WORD: usize = std::mem::size_of::<usize>();
+        let mut copied = 0;
+        while copied < last.len() {
+            let addr = src + offset + copied;
+            let aligned = addr & !(WORD - 1);
+            let skip = addr - aligned;
+            let word = nix::sys::ptrace::read(pid, aligned as *mut std::ffi::c_void)
+                .map_err(|err| (err, offset + copied))?;
+            let count = std::cmp::min(WORD - skip, last.len() - copied);
+            last[copied..copied + count].copy_from_slice(&word.to_ne_bytes()[skip..skip + count]);
+            copied += count;
         }
 
         Ok(dst.len())
